@@ -394,8 +394,10 @@ class AstInfo:
             True if self should be covered, False otherwise.
         """
         start_line = scope_line_range(self.ast)[0]
+        # Whether the scope is selected by `only_cover_lines` is decided for the scope
+        # itself; the definitions that contain it can only exclude it.
         return self._in_cover(start_line) and all(
-            self._in_cover(scope_line_range(definition_node)[0])
+            scope_line_range(definition_node)[0] not in self.module.no_cover_lines
             for definition_node in nodes_of_class(
                 self.module.module_ast, (ast.FunctionDef, ast.AsyncFunctionDef, ast.ClassDef)
             )
